@@ -1,5 +1,673 @@
 package main
 
-import "math/rand"
+// (b) WebSocket connections with the instrumented allocator.
+//   server role: the real Upgrader.Upgrade through Parser + ServerProcessor (a net.Conn the upgrader does not know:
+//                blocking mode, SyncCall dispatch), driven like Engine.readConnBlocking drives it;
+//   client role: NewClientConn + Engine + Execute as the Dialer sets them (Execute dispatch);
+//   both: direct and send-queue (asyncWrite) write modes, payload release on/off (server), frame handler on/off.
+import (
+	"bytes"
+	"compress/flate"
+	"encoding/binary"
+	"fmt"
+	"io"
+	"math/rand"
+	"net/http"
+	"strings"
+	"sync"
+	"time"
 
-func wsCase(h *H, r *rand.Rand, idx int) {}
+	"github.com/lesismal/nbio/nbhttp"
+	"github.com/lesismal/nbio/nbhttp/websocket"
+	"verifharness/hx"
+)
+
+func newEngine(al *Alloc, conf nbhttp.Config) *nbhttp.Engine {
+	conf.BodyAllocator = al
+	conf.ServerExecutor = func(f func()) { f() }
+	conf.ClientExecutor = func(f func()) { f() }
+	return nbhttp.NewEngine(conf)
+}
+
+type wsMsg struct {
+	Op         byte
+	Payload    []byte
+	Frags      []int // sizes of the wire fragments of the (possibly compressed) payload
+	Compressed bool
+	Bad        string // "", rsv2, opcode, ctl-big, ctl-frag, bad-deflate, cont-without-start, text-in-frag, len64-neg, rsv1-nocompress
+	Action     string // what the handler does with it: echo, reply, none, close, clean, ping
+	ReplyLen   int
+}
+
+func (m *wsMsg) desc() string {
+	return fmt.Sprintf("op%d len=%d frags=%v z=%v bad=%s act=%s/%d", m.Op, len(m.Payload), m.Frags, m.Compressed, m.Bad, m.Action, m.ReplyLen)
+}
+
+func wsFrame(op byte, fin, rsv1, rsv2 bool, payload []byte, masked bool, r *rand.Rand) []byte {
+	var b []byte
+	b0 := op
+	if fin {
+		b0 |= 0x80
+	}
+	if rsv1 {
+		b0 |= 0x40
+	}
+	if rsv2 {
+		b0 |= 0x20
+	}
+	b = append(b, b0)
+	mb := byte(0)
+	if masked {
+		mb = 0x80
+	}
+	n := len(payload)
+	switch {
+	case n < 126:
+		b = append(b, mb|byte(n))
+	case n <= 65535:
+		b = append(b, mb|126, byte(n>>8), byte(n))
+	default:
+		b = append(b, mb|127)
+		var l [8]byte
+		binary.BigEndian.PutUint64(l[:], uint64(n))
+		b = append(b, l[:]...)
+	}
+	if masked {
+		var k [4]byte
+		binary.LittleEndian.PutUint32(k[:], r.Uint32())
+		b = append(b, k[:]...)
+		for i, c := range payload {
+			b = append(b, c^k[i&3])
+		}
+	} else {
+		b = append(b, payload...)
+	}
+	return b
+}
+
+func deflate(p []byte) []byte {
+	var buf bytes.Buffer
+	w, _ := flate.NewWriter(&buf, 1)
+	w.Write(p)
+	w.Flush()
+	out := buf.Bytes()
+	if len(out) >= 4 {
+		out = out[:len(out)-4]
+	}
+	return append([]byte{}, out...)
+}
+
+func inflate(p []byte) ([]byte, error) {
+	rd := flate.NewReader(io.MultiReader(bytes.NewReader(p), strings.NewReader("\x00\x00\xff\xff\x01\x00\x00\xff\xff")))
+	return io.ReadAll(rd)
+}
+
+// wire bytes of one message as the peer sends it
+func (m *wsMsg) wire(masked bool, r *rand.Rand) []byte {
+	data := m.Payload
+	rsv1 := false
+	if m.Compressed {
+		data = deflate(m.Payload)
+		rsv1 = true
+	}
+	switch m.Bad {
+	case "bad-deflate":
+		data = append([]byte{0xff, 0xfe, 0xfd, 0x07, 0x07}, m.Payload...)
+		rsv1 = true
+	case "rsv1-nocompress":
+		rsv1 = true
+	case "len64-neg":
+		h := []byte{0x80 | m.Op, 127, 0x80, 0, 0, 0, 0, 0, 0, 1}
+		if masked {
+			h[1] |= 0x80
+			h = append(h, 1, 2, 3, 4)
+		}
+		return h
+	case "cont-without-start":
+		return wsFrame(0, true, false, false, data, masked, r)
+	case "opcode":
+		return wsFrame(3+byte(len(data)%5), true, false, false, data, masked, r)
+	case "rsv2":
+		return wsFrame(m.Op, true, false, true, data, masked, r)
+	case "ctl-big":
+		return wsFrame(9, true, false, false, payload(126+len(data)%100), masked, r)
+	case "ctl-frag":
+		return wsFrame(9, false, false, false, data[:min(len(data), 100)], masked, r)
+	}
+	frags := m.Frags
+	if len(frags) == 0 {
+		frags = []int{len(data)}
+	}
+	// spread the (possibly compressed) data over the fragments
+	var out []byte
+	off := 0
+	for i := range frags {
+		n := frags[i]
+		if i == len(frags)-1 || off+n > len(data) {
+			n = len(data) - off
+		}
+		last := i == len(frags)-1
+		op := m.Op
+		if i > 0 {
+			op = 0
+			if m.Bad == "text-in-frag" {
+				op = 1
+			}
+		}
+		out = append(out, wsFrame(op, last, rsv1 && i == 0, false, data[off:off+n], masked, r)...)
+		off += n
+	}
+	return out
+}
+
+func min(a, b int) int {
+	if a < b {
+		return a
+	}
+	return b
+}
+
+type wsSpec struct {
+	Server     bool
+	Async      bool
+	Compress   bool
+	Release    bool
+	FrameH     bool
+	Limit      int
+	Msgs       []*wsMsg
+	Cuts       []int
+	StopAfter  int
+	FailFrom   int
+	Slow       bool // the connection accepts nothing until the harness lets it (send-queue mode only)
+	QMax       int
+	Mode       int
+	Slack      int
+	RaceClose  bool // CloseAndClean from a second goroutine while frames are being parsed
+	PipeWithHS bool // the first frames arrive in the same segment as the handshake request (server)
+}
+
+func wsSize(r *rand.Rand, limit int) int {
+	switch r.Intn(14) {
+	case 0:
+		return 0
+	case 1:
+		return 1
+	case 2:
+		return 125
+	case 3:
+		return 126
+	case 4:
+		return 127
+	case 5:
+		return 65535
+	case 6:
+		return 65536
+	case 7:
+		return 65537 + r.Intn(100)
+	case 8:
+		return 32768 - 2 + r.Intn(5) // MaxWebsocketFramePayloadSize of the reply path
+	case 9:
+		if limit > 0 {
+			return limit - 1 + r.Intn(3)
+		}
+		return r.Intn(300)
+	case 10:
+		return 100000 + r.Intn(1000)
+	default:
+		return r.Intn(2000)
+	}
+}
+
+func genWS(r *rand.Rand, idx int) *wsSpec {
+	s := &wsSpec{Server: r.Intn(2) == 0, Async: r.Intn(2) == 0, Compress: r.Intn(3) == 0, Release: r.Intn(2) == 0,
+		FrameH: r.Intn(4) == 0, StopAfter: -1, FailFrom: -1, Mode: r.Intn(3)}
+	if r.Intn(2) == 0 {
+		s.Slack = []int{1, 64, 1024}[r.Intn(3)]
+	}
+	if r.Intn(3) == 0 {
+		s.Limit = []int{100, 1000, 65536, 70000}[r.Intn(4)]
+	}
+	n := 1 + r.Intn(6)
+	for i := 0; i < n; i++ {
+		m := &wsMsg{Op: byte(1 + r.Intn(2)), Action: []string{"echo", "echo", "reply", "none", "ping"}[r.Intn(5)]}
+		sz := wsSize(r, s.Limit)
+		m.Payload = pat(sz, byte(idx+i))
+		m.ReplyLen = wsSize(r, 0)
+		if s.Compress && r.Intn(2) == 0 {
+			m.Compressed = true
+		}
+		if r.Intn(3) == 0 && sz > 1 {
+			k := 2 + r.Intn(3)
+			for j := 0; j < k; j++ {
+				m.Frags = append(m.Frags, r.Intn(sz/k+2)) // empty fragments included
+			}
+		}
+		switch r.Intn(14) {
+		case 0:
+			m.Op = 9
+			m.Payload = pat(r.Intn(126), byte(i))
+			m.Frags, m.Compressed = nil, false
+		case 1:
+			m.Op = 10
+			m.Payload = pat(r.Intn(126), byte(i))
+			m.Frags, m.Compressed = nil, false
+		case 2:
+			m.Op = 8
+			m.Frags, m.Compressed = nil, false
+			switch r.Intn(4) {
+			case 0:
+				m.Payload = nil
+			case 1:
+				m.Payload = append([]byte{0x03, 0xe8}, pat(r.Intn(100), 3)...)
+			case 2:
+				m.Payload = []byte{0x03}
+			default:
+				m.Payload = append([]byte{0x03, 0xed}, pat(r.Intn(50), 3)...) // 1005: invalid on the wire
+			}
+		case 3:
+			m.Bad = []string{"rsv2", "opcode", "ctl-big", "ctl-frag", "bad-deflate", "cont-without-start", "text-in-frag", "len64-neg", "rsv1-nocompress"}[r.Intn(9)]
+			if m.Bad == "bad-deflate" && !s.Compress {
+				m.Bad = "rsv1-nocompress"
+			}
+			if m.Bad == "text-in-frag" && len(m.Frags) < 2 {
+				m.Frags = []int{len(m.Payload) / 2, len(m.Payload)}
+			}
+			if m.Bad != "text-in-frag" && m.Bad != "bad-deflate" {
+				m.Frags = nil
+			}
+			m.Compressed = false
+		case 4:
+			m.Action = []string{"close", "clean"}[r.Intn(2)]
+		}
+		s.Msgs = append(s.Msgs, m)
+	}
+	if r.Intn(5) == 0 {
+		s.FailFrom = r.Intn(5)
+	}
+	if s.Async && r.Intn(3) == 0 {
+		s.Slow = true
+		if r.Intn(2) == 0 {
+			s.QMax = 1 + r.Intn(3)
+		}
+	}
+	if !s.Slow && r.Intn(12) == 0 {
+		s.RaceClose = true
+	}
+	s.PipeWithHS = s.Server && r.Intn(4) == 0
+	return s
+}
+
+func (s *wsSpec) desc() map[string]interface{} {
+	var ms []string
+	for _, m := range s.Msgs {
+		ms = append(ms, m.desc())
+	}
+	role := "client"
+	if s.Server {
+		role = "server"
+	}
+	return map[string]interface{}{"role": role, "async_write": s.Async, "compression": s.Compress, "release_payload": s.Release,
+		"frame_handler": s.FrameH, "message_length_limit": s.Limit, "messages": ms, "cuts": s.Cuts, "stop_after_segments": s.StopAfter,
+		"fail_from": s.FailFrom, "slow_conn": s.Slow, "send_queue_max": s.QMax, "allocator": modeNames[s.Mode], "slack": s.Slack,
+		"race_close": s.RaceClose, "frames_with_handshake": s.PipeWithHS}
+}
+
+const wsKey = "dGhlIHNhbXBsZSBub25jZQ=="
+
+func wsCase(h *H, r *rand.Rand, idx int) {
+	s := genWS(r, idx)
+	al := NewAlloc(s.Mode, s.Slack)
+	install(al)
+	fc := &sconn{al: al}
+	if s.FailFrom >= 0 {
+		fc.fails = failFrom(s.FailFrom)
+	}
+	var mu sync.Mutex
+	closeAsked := false
+	fc.onClose = func() { mu.Lock(); closeAsked = true; mu.Unlock() }
+	asked := func() bool { mu.Lock(); defer mu.Unlock(); return closeAsked }
+
+	// what the handler must receive: the data messages that are valid, in order (until the first invalid one)
+	var expect [][]byte
+	for _, m := range s.Msgs {
+		if m.Bad != "" {
+			break
+		}
+		if m.Op == 8 {
+			break
+		}
+		if m.Op == 1 || m.Op == 2 {
+			if s.Limit > 0 && len(m.Payload) > s.Limit {
+				break
+			}
+			expect = append(expect, m.Payload)
+		}
+	}
+	var problems []string
+	delivered := 0
+	var wsc *websocket.Conn
+	onMessage := func(c *websocket.Conn, mt websocket.MessageType, data []byte) {
+		i := delivered
+		delivered++
+		al.Observe(data, "OnMessage")
+		if p, g := runOf(data, poison), runOf(data, garbage); p >= 8 || g >= 8 {
+			kind := "poison"
+			if p < 8 {
+				kind = "garbage"
+			}
+			problems = append(problems, fmt.Sprintf("%s-in-message|message %d handed to OnMessage (%d bytes) contains freed / never-written pool memory", kind, i, len(data)))
+		} else if i < len(expect) && !bytes.Equal(data, expect[i]) {
+			h.rep.Stat("ws.delivered-differs-without-poison")
+		}
+		var m *wsMsg
+		// the i-th delivered data message belongs to the i-th valid data message of the spec
+		k := 0
+		for _, mm := range s.Msgs {
+			if mm.Op == 1 || mm.Op == 2 {
+				if k == i {
+					m = mm
+					break
+				}
+				k++
+			}
+		}
+		if m == nil {
+			return
+		}
+		switch m.Action {
+		case "echo":
+			_ = c.WriteMessage(mt, data)
+		case "reply":
+			_ = c.WriteMessage(websocket.BinaryMessage, pat(m.ReplyLen, 7))
+		case "ping":
+			_ = c.WriteMessage(websocket.PingMessage, pat(m.ReplyLen%126, 9))
+		case "close":
+			_ = c.WriteClose(1000, "bye")
+			_ = c.Close()
+		case "clean":
+			c.CloseAndClean(nil)
+		}
+	}
+	onFrame := func(c *websocket.Conn, mt websocket.MessageType, fin bool, data []byte) {
+		al.Observe(data, "OnDataFrame")
+		if p, g := runOf(data, poison), runOf(data, garbage); p >= 8 || g >= 8 {
+			problems = append(problems, fmt.Sprintf("poison-in-frame|a frame handed to OnDataFrame (%d bytes) contains freed / never-written pool memory", len(data)))
+		}
+	}
+
+	var uerr error
+	conf := nbhttp.Config{}
+	u := websocket.NewUpgrader()
+	if s.Server {
+		conf.Handler = http.HandlerFunc(func(w http.ResponseWriter, rq *http.Request) {
+			wsc, uerr = u.Upgrade(w, rq, nil)
+		})
+	}
+	engine := newEngine(al, conf)
+	u.Engine = engine
+	u.BlockingModHandleRead = false
+	u.BlockingModAsyncWrite = s.Async
+	u.BlockingModSendQueueMaxSize = uint16(s.QMax)
+	u.BlockingModAsyncCloseDelay = time.Millisecond
+	u.KeepaliveTime = 0
+	u.ReleasePayload = s.Release
+	u.EnableCompression(s.Compress)
+	if s.Limit > 0 {
+		u.MessageLengthLimit = s.Limit
+	}
+	u.OnMessage(onMessage)
+	if s.FrameH {
+		u.OnDataFrame(onFrame)
+	}
+
+	var stream []byte
+	for _, m := range s.Msgs {
+		stream = append(stream, m.wire(s.Server, r)...)
+	}
+	s.Cuts = cuts(r, len(stream))
+	if r.Intn(6) == 0 {
+		s.StopAfter = r.Intn(len(s.Cuts) + 1)
+	}
+	replay := s.desc()
+	replay["harness"], replay["scenario"], replay["seed"], replay["index"] = "bufown", "ws", h.seed, idx
+
+	var pc nbhttp.ParserCloser
+	var perr error
+	hsWrites := 0
+	if s.Server {
+		ps := nbhttp.NewParser(fc, engine, nbhttp.NewServerProcessor(), false, nil)
+		ext := ""
+		if s.Compress {
+			ext = "Sec-WebSocket-Extensions: permessage-deflate; server_no_context_takeover; client_no_context_takeover\r\n"
+		}
+		hs := []byte("GET /ws HTTP/1.1\r\nHost: x\r\nUpgrade: websocket\r\nConnection: Upgrade\r\nSec-WebSocket-Version: 13\r\nSec-WebSocket-Key: " + wsKey + "\r\n" + ext + "\r\n")
+		first := hs
+		if s.PipeWithHS && s.FailFrom != 0 {
+			// frames in the segment of the handshake request: the parser hands its tail to the new connection
+			k := len(stream)
+			if len(s.Cuts) > 0 {
+				k = s.Cuts[0]
+			}
+			first = append(append([]byte{}, hs...), stream[:k]...)
+			stream = stream[k:]
+			var nc []int
+			for _, c := range s.Cuts {
+				if c > k {
+					nc = append(nc, c-k)
+				}
+			}
+			s.Cuts = nc
+		}
+		// the handshake request itself may arrive in pieces (the parser caches the head, then hands over)
+		if r.Intn(3) == 0 {
+			k := 1 + r.Intn(len(hs)-1)
+			perr = ps.Parse(append([]byte{}, first[:k]...))
+			first = first[k:]
+			h.rep.Stat("ws.handshake-in-pieces")
+		}
+		if perr == nil {
+			perr = ps.Parse(first)
+		}
+		if uerr != nil || wsc == nil {
+			// the handshake failed (scripted write failure of the 101 response): nothing more to drive
+			ps.CloseAndClean(perr)
+			h.rep.Stat("ws.handshake-failed")
+			h.rep.Case(fmt.Sprintf("ws/%v", replay), true)
+			h.finish(al, "ws", replay)
+			return
+		}
+		// Engine.readConnBlocking: once upgraded, the reader talks to the websocket conn and retires the parser
+		ps.OnClose(nil)
+		ps.CloseAndClean(nil)
+		pc = wsc
+		hsWrites = 1 // Upgrade sends the 101 response with one conn.Write
+	} else {
+		opt := websocket.NewOptions()
+		opt.Engine = engine
+		opt.ReleasePayload = s.Release
+		opt.KeepaliveTime = 0
+		opt.BlockingModSendQueueMaxSize = uint16(s.QMax)
+		opt.BlockingModAsyncCloseDelay = time.Millisecond
+		opt.EnableCompression(s.Compress)
+		if s.Limit > 0 {
+			opt.MessageLengthLimit = s.Limit
+		}
+		opt.OnMessage(onMessage)
+		if s.FrameH {
+			opt.OnDataFrame(onFrame)
+		}
+		wsc = websocket.NewClientConn(opt, fc, "", s.Compress, s.Async)
+		wsc.Engine = engine
+		wsc.Execute = func(f func()) bool { f(); return true }
+		pc = wsc
+	}
+	if s.Slow {
+		fc.inWrite = make(chan struct{}, 1)
+		fc.gate = make(chan struct{})
+	}
+
+	var raceDone chan struct{}
+	if s.RaceClose {
+		raceDone = make(chan struct{})
+		spin := r.Intn(2000)
+		go func() {
+			for i := 0; i < spin; i++ {
+				_ = i * i
+			}
+			wsc.CloseAndClean(nil)
+			close(raceDone)
+		}()
+	}
+	prev, segs := 0, 0
+	bounds := append(append([]int{}, s.Cuts...), len(stream))
+	for _, b := range bounds {
+		if b <= prev || b > len(stream) || perr != nil {
+			continue
+		}
+		if s.StopAfter >= 0 && segs >= s.StopAfter {
+			break
+		}
+		seg := append([]byte{}, stream[prev:b]...)
+		perr = pc.Parse(seg)
+		fill(seg, 0xEE)
+		prev = b
+		segs++
+		if asked() {
+			break
+		}
+	}
+	if s.Slow {
+		// the writer goroutine (if any) sits in conn.Write; frames are queued behind it. Close now, then let it go.
+		select {
+		case <-fc.inWrite:
+		case <-time.After(20 * time.Millisecond):
+		}
+	}
+	pc.CloseAndClean(perr)
+	if s.Slow {
+		close(fc.gate)
+	}
+	if raceDone != nil {
+		<-raceDone
+	}
+	// the send-queue goroutine releases its frame after the write returns
+	deadline := time.Now().Add(3 * time.Second)
+	for al.LiveFrom("writeFrame") > 0 && time.Now().Before(deadline) {
+		time.Sleep(50 * time.Microsecond)
+	}
+	if n := al.LiveFrom("writeFrame"); n > 0 {
+		h.rep.StatN("ws.frames-never-released", n)
+	}
+
+	h.rep.Case(fmt.Sprintf("ws/%v", replay), true)
+	h.rep.Ops += len(s.Msgs)
+	for _, k := range []string{"role", "async_write", "compression", "release_payload", "allocator"} {
+		h.rep.Stat(fmt.Sprintf("ws.%s=%v", k, replay[k]))
+	}
+	h.rep.StatN("ws.messages-delivered", delivered)
+	if perr != nil {
+		h.rep.Stat("ws.parse-error")
+		h.rep.Stat("ws.err=" + errClass(perr))
+	}
+	if s.Slow {
+		h.rep.Stat("ws.slow-conn-close-with-queue")
+	}
+	for _, p := range problems {
+		parts := strings.SplitN(p, "|", 2)
+		h.rep.Add(hx.Finding{Kind: "oracle", Property: "C11", Signature: parts[0], What: parts[1], Replay: replay})
+	}
+	// what went out: frames must not carry freed / never-written memory
+	wire, oks := fc.snapshot()
+	var out []byte
+	for i := hsWrites; i < len(wire); i++ {
+		if oks[i] {
+			out = append(out, wire[i]...)
+		}
+	}
+	for i := 0; i < hsWrites && i < len(wire); i++ {
+		h.scanWire(wire[i], "handshake", replay)
+	}
+	scanFrames(h, out, !s.Server, replay)
+	h.finish(al, "ws", replay)
+	if idx < 2 {
+		h.rep.Sample(map[string]interface{}{"scenario": "ws", "spec": replay, "delivered": delivered, "parse_error": fmt.Sprint(perr),
+			"events": len(al.events), "conn_writes": len(wire)})
+	}
+}
+
+func errClass(err error) string {
+	s := err.Error()
+	if i := strings.Index(s, ":"); i > 0 && i < 40 {
+		s = s[:i]
+	}
+	if len(s) > 40 {
+		s = s[:40]
+	}
+	return s
+}
+
+// decode the frames the connection sent; scan uncompressed payloads (inflated ones for compressed messages)
+func scanFrames(h *H, out []byte, masked bool, replay interface{}) {
+	var msg []byte
+	compressed := false
+	for len(out) >= 2 {
+		b0, b1 := out[0], out[1]
+		n := int(b1 & 0x7f)
+		off := 2
+		switch n {
+		case 126:
+			if len(out) < 4 {
+				return
+			}
+			n = int(binary.BigEndian.Uint16(out[2:4]))
+			off = 4
+		case 127:
+			if len(out) < 10 {
+				return
+			}
+			n = int(binary.BigEndian.Uint64(out[2:10]))
+			off = 10
+		}
+		var key []byte
+		if b1&0x80 != 0 {
+			if len(out) < off+4 {
+				return
+			}
+			key = out[off : off+4]
+			off += 4
+		}
+		if n < 0 || len(out) < off+n {
+			h.rep.Stat("ws.wire-undecodable")
+			return
+		}
+		p := append([]byte{}, out[off:off+n]...)
+		for i := range p {
+			if key != nil {
+				p[i] ^= key[i&3]
+			}
+		}
+		out = out[off+n:]
+		op := b0 & 0x0f
+		if op >= 8 {
+			h.scanWire(p, "ws-control-frame", replay)
+			continue
+		}
+		if op != 0 {
+			msg = nil
+			compressed = b0&0x40 != 0
+		}
+		msg = append(msg, p...)
+		if b0&0x80 != 0 {
+			if compressed {
+				if d, err := inflate(msg); err == nil {
+					h.scanWire(d, "ws-message", replay)
+				} else {
+					h.rep.Stat("ws.sent-message-does-not-inflate")
+				}
+			} else {
+				h.scanWire(msg, "ws-message", replay)
+			}
+			msg = nil
+		}
+	}
+}
